@@ -4,7 +4,7 @@
 From V.lib Require Import Base.
 From V.c05 Require Import C05Model C05FragModel C05OptProofs C05HistProofs C05GhostProofs C05ReadProofs C05RoundProofs
   C05CodecModel C05CodecProofs C05EncHistModel C05EncHistProofs C05EncRoundProofs C05EncCodecProofs
-  C05SegModel C05SegProofs C05EncSegProofs.
+  C05SegModel C05SegProofs C05EncSegProofs C05SingleProofs C05EncInvisProofs C05EncGuardProofs.
 
 (* C05_roundtrip for histories in which the sample additions are INTERLEAVED WITH Encode calls (run_hops: every Encode
    runs SetTrunDataOffsets and MdatBox.Size on the live fragment, the additions that follow see that state; encode_state
@@ -55,6 +55,39 @@ Theorem C05_roundtrip_with_encodes_single : forall T hs cs fr opt fe pos0 tx pre
 Proof. exact roundtrip_encodes_single. Qed.
 Print Assumptions C05_roundtrip_with_encodes_single.
 
+(* the general form, for ANY starting fragment and ALL SIX add operations: plain Encodes in the middle are INVISIBLE to
+   the final Encode.  The history accepts / refuses the same additions as the additions alone (add_classes), reaches their
+   fragment up to the data offsets (fsimS), and the final Encode (which rewrites every data offset: the write-order
+   numbers of the encode-free fragment are pairwise different) returns THE SAME encoded fragment, unless an Encode in the
+   middle saw a payload above 4 GiB - 9 and left the mdat marked large-size.  Every theorem of C05Theorems.v /
+   C05SegTheorems.v about `encode_frag opt fr` of an encode-free history transfers by rewriting. *)
+Theorem C05_plain_encodes_invisible : forall hs a cs a',
+  plain hs = true -> run_hops a hs = (cs, Some a') ->
+  exists b, run_ops a (adds hs) = (add_classes hs cs, Some b) /\ fsimS a' b /\
+    (md_large (fr_mdat a') = md_large (fr_mdat a) ->
+     NoDup (map tr_won (all_truns (fr_trafs b))) ->
+     forall opt, encode_frag opt a' = encode_frag opt b).
+Proof. exact plain_encodes_invisible. Qed.
+Print Assumptions C05_plain_encodes_invisible.
+
+(* ... applied to C05_roundtrip_single_modes: single-track fragments under ALL SIX add operations (one data mode per
+   fragment: full samples / metadata-only with the caller's data lz / sample intervals) interleaved with plain Encodes *)
+Theorem C05_roundtrip_with_encodes_modes : forall T hs cs fr opt fe pos0 tx pre mx post exs FL lz,
+  Forall (fun o => op_dts o < 18446744073709551616) (adds hs) ->
+  plain hs = true ->
+  run_hops (with_extras (create_fragment T) pre mx post exs) hs = (cs, Some fr) ->
+  md_large (fr_mdat fr) = false ->
+  mode_ok (adds hs) (add_classes hs cs) FL lz ->
+  map fs_s FL = added1 T (adds hs) -> Forall sized_f FL -> FL <> [] ->
+  encode_frag opt fr = Ok fe ->
+  moof_size fe + md_header_size (fr_mdat fe) + lenN (flat_map fs_data FL) < 2147483648 ->
+  pos0 + fr_pre fe < 4611686018427387904 ->
+  exists t,
+    map tf_dt (fr_trafs fr) = [set_base t] /\
+    get_full_samples (decoded_view fe pos0 lz) (Some tx) = Ok (if tx_track tx =? T then retime t FL else []).
+Proof. exact roundtrip_encodes_single_modes. Qed.
+Print Assumptions C05_roundtrip_with_encodes_modes.
+
 (* ANY Encode calls in the middle, also with OptimizeTrun (which rewrites the flag word of the first trun and the
    tfhd defaults in place): the round trip holds under enc_guard on the state the final Encode sees = the first trun of
    the first traf still resolves to its own samples under its flag word and the tfhd defaults (trun_selfres: a sample
@@ -72,6 +105,27 @@ Theorem C05_roundtrip_with_encodes_guarded : forall tracks pre mx post exs hs cs
   get_full_samples (decoded_view fe pos0 []) (Some tx) = Ok (added_fulls tracks (tx_track tx) (adds hs)).
 Proof. exact roundtrip_encodes_guarded. Qed.
 Print Assumptions C05_roundtrip_with_encodes_guarded.
+
+(* ... and the second half of enc_guard is an invariant (others4: OptimizeTfhdTrun only ever touches the first trun of
+   the first traf; every other trun keeps CreateTrun's flag word through any history with any Encodes), so the guard is
+   the FIRST trun's alone (first_selfres), and C05_encodes_opt_refuted below shows it cannot be dropped *)
+Theorem C05_encodes_others_keep_fields : forall hs a cs a',
+  others4 a = true -> run_hops a hs = (cs, Some a') -> others4 a' = true.
+Proof. exact hops_others. Qed.
+Print Assumptions C05_encodes_others_keep_fields.
+
+Theorem C05_roundtrip_with_encodes_first : forall tracks pre mx post exs hs cs fr opt fe pos0 tx,
+  NoDup tracks -> N.of_nat (length (adds hs)) < 4294967296 -> forallb is_full_to (adds hs) = true ->
+  Forall (fun o => sized_f (op_full o)) (adds hs) ->
+  run_hops (with_extras (create_multi tracks) pre mx post exs) hs = (cs, Some fr) ->
+  first_selfres fr = true ->
+  encode_frag opt fr = Ok fe ->
+  moof_size fe + md_header_size (fr_mdat fe) + lenN (md_data (fr_mdat fr)) < 2147483648 ->
+  pos0 + fr_pre fe < 4611686018427387904 ->
+  consistent (added_fulls tracks (tx_track tx) (adds hs)) ->
+  get_full_samples (decoded_view fe pos0 []) (Some tx) = Ok (added_fulls tracks (tx_track tx) (adds hs)).
+Proof. exact roundtrip_encodes_first. Qed.
+Print Assumptions C05_roundtrip_with_encodes_first.
 
 (* the guard is what fails in finding C05-F10 (known): two samples of duration 10, Encode with OptimizeTrun, a third
    sample of duration 20, Encode: enc_guard is false and the third sample reads back with duration 10 *)
@@ -203,4 +257,23 @@ Example C05_roundtrip_with_encodes_guarded_ex :
 Proof.
   eexists; eexists; eexists. split; [vm_compute; reflexivity|]. split; [reflexivity|].
   split; [vm_compute; reflexivity|]. split; [vm_compute; reflexivity|]. vm_compute. reflexivity.
+Qed.
+
+(* hypotheses of C05_roundtrip_with_encodes_modes in the metadata-only mode: AddSamples of two samples, a plain Encode,
+   an addition to an unknown track (refused), AddSample, another plain Encode; the caller writes 6 bytes *)
+Example C05_roundtrip_with_encodes_modes_ex :
+  let s k := mkSample 16842752 10 k 0 in
+  let hs := [HAdd (OMetas [s 2; s 1] 500); HEnc false; HAdd (OMetaTo 9 (s 1) 0); HAdd (OMeta (s 3) 520); HEnc false] in
+  let FL := [mkFull (s 2) 0 [1;2]; mkFull (s 1) 0 [3]; mkFull (s 3) 0 [4;5;6]] in
+  exists fr fe, run_hops (with_extras (create_fragment 4) 20 0 8 [5]) hs = ([COk; COk; CErr; COk; COk], Some fr) /\
+    plain hs = true /\ md_large (fr_mdat fr) = false /\
+    add_classes hs [COk; COk; CErr; COk; COk] = [COk; CErr; COk] /\
+    mode_ok (adds hs) [COk; CErr; COk] FL [1;2;3;4;5;6] /\ map fs_s FL = added1 4 (adds hs) /\ Forall sized_f FL /\
+    encode_frag true fr = Ok fe /\
+    get_full_samples (decoded_view fe 300 [1;2;3;4;5;6]) (Some (mkTrex 4 0 0 0))
+      = Ok [mkFull (s 2) 500 [1;2]; mkFull (s 1) 510 [3]; mkFull (s 3) 520 [4;5;6]].
+Proof.
+  eexists; eexists. split; [vm_compute; reflexivity|]. split; [reflexivity|]. split; [reflexivity|]. split; [reflexivity|].
+  split; [right; left; split; reflexivity|].
+  split; [reflexivity|]. split; [repeat constructor|]. split; [vm_compute; reflexivity|]. vm_compute. reflexivity.
 Qed.
